@@ -136,8 +136,9 @@ impl BufferParser for Parser {
                     Ok(CallbackAction::NoUpdate)
                 }
                 2 => {
-                    caret.pos.x = self.avt_repeat_char as i32;
-                    caret.pos.y = ch as i32;
+                    // the two position bytes are 1-based (the writer emits 1, 1 for home)
+                    caret.pos.x = (self.avt_repeat_char as i32 - 1).max(0);
+                    caret.pos.y = (ch as i32 - 1).max(0);
                     buf.terminal_state.limit_caret_pos(buf, caret);
 
                     self.avt_state = AvtReadState::Chars;
